@@ -74,9 +74,9 @@ theorem stackTrue_flattenS_clean (d : Dev) (rx : RxEngine) (c : Tm) (hc : Clean 
 operand combinations stay outside the deviation classes -/
 theorem matchElem_flatten_clean (d : Dev) (rx : RxEngine) (t : Tm) (hwf : t.wf = true) (elem root : Val)
     (hclean : ∀ c ∈ Spec.choices elem root t, Clean d rx c = true) :
-    matchElem d rx (flatten t) elem root =
+    matchGeneral d rx (flatten t) elem root =
       .ok ((Spec.choices elem root t).any fun c => Spec.isTrue (Spec.eval rx c)) := by
-  unfold matchElem
+  unfold matchGeneral
   have hr := resolve_flatten elem root t hwf []
   simp only [List.append_nil, resolve] at hr
   have hp := prod_rflat elem root t hwf
